@@ -3,28 +3,34 @@ package io
 import (
 	"bytes"
 	"io"
+
+	zerr "github.com/DemoHn/Zn/pkg/error"
 )
 
 // ByteStream - import a string as code source
 type ByteStream struct {
-	reader io.Reader
-	length int
+	reader    io.Reader
+	length    int
 	encBuffer []byte
 }
 
 // NewByteStream - new text stream
 func NewByteStream(b []byte) *ByteStream {
 	return &ByteStream{
-		reader: bytes.NewReader(b),
-		length: len(b),
+		reader:    bytes.NewReader(b),
+		length:    len(b),
 		encBuffer: []byte{},
 	}
 }
 
 func (b *ByteStream) ReadAll() ([]rune, error) {
-	data, _, err := readRune(b.reader, b.encBuffer, b.length)
+	data, remains, err := readRune(b.reader, b.encBuffer, b.length)
 	if err != nil {
 		return []rune{}, err
+	}
+	// all bytes have been read: an unfinished sequence can never be completed
+	if len(remains) > 0 {
+		return []rune{}, zerr.ReadFileError(errInvalidUTF8, " <buffer> ")
 	}
 	return data, nil
 }
